@@ -120,3 +120,39 @@ Proof.
   cbn [export_steps firstn fs_run fs_step] in *. exact H.
 Qed.
 Print Assumptions C20_atomic_with_stale_tmp.
+
+(* ---- the tally over a WHOLE history of one torrent ----
+   any sequence of announces and cleaning passes (any capacity, any selection offsets): no step
+   panics; and when every stored entry an announce replaced or removed carried the announced id
+   (`stable = true`), the statistics worker's tally of every id, fed with every message the
+   history emitted, equals the number of stored entries carrying that id. *)
+Theorem C20_history_never_panics : forall cap shrink ops,
+  exists pm' msgs stable, pm_hist cap shrink (Small []) ops = Ok (pm', msgs, stable) /\ pmap_inv cap shrink pm'.
+Proof. intros cap shrink ops. exact (pm_hist_total cap shrink ops (Small []) (small_nil_inv cap shrink)). Qed.
+Print Assumptions C20_history_never_panics.
+
+Theorem C20_tally_history : forall cap shrink ops pm' msgs q,
+  pm_hist cap shrink (Small []) ops = Ok (pm', msgs, true) ->
+  tally_count (tally_run msgs) q = pid_count q (pm_entries pm').
+Proof. exact hist_tally_exact. Qed.
+Print Assumptions C20_tally_history.
+
+(* non-vacuity: two ids join, one is cleaned away, one re-announces and the inline map is used;
+   the history is id-stable and the tallies are 0 and 1 *)
+Example C20_tally_history_example :
+  exists pm' msgs,
+    pm_hist 2 true (Small []) [PAnn 1%N Leeching 170%N 100%N 5 0 0; PAnn 2%N Seeding 187%N 50%N 5 0 0;
+                               PClean 60%N; PAnn 1%N Seeding 170%N 200%N 5 0 0] = Ok (pm', msgs, true)
+    /\ tally_count (tally_run msgs) 170%N = 1 /\ tally_count (tally_run msgs) 187%N = 0
+    /\ length (pm_entries pm') = 1.
+Proof. do 2 eexists. split; [vm_compute; reflexivity|]. repeat split; vm_compute; reflexivity. Qed.
+
+(* and the hypothesis `stable = true` cannot be dropped (the recorded finding, on one torrent) *)
+Lemma C20_tally_history_refuted_without_stable :
+  exists ops pm' msgs,
+    pm_hist 2 true (Small []) ops = Ok (pm', msgs, false)
+    /\ tally_count (tally_run msgs) 170%N <> pid_count 170%N (pm_entries pm').
+Proof.
+  exists [PAnn 1%N Leeching 170%N 100%N 5 0 0; PAnn 1%N Leeching 187%N 100%N 5 0 0; PAnn 1%N Stopped 187%N 100%N 5 0 0].
+  do 2 eexists. split; [vm_compute; reflexivity|]. vm_compute. discriminate.
+Qed.
